@@ -83,7 +83,11 @@ func smartDateParseWrapper(format string, tz *time.Location, dateStage KeyBuilde
 				if err != nil {
 					return ErrorParsing
 				}
-				atomicFormat.Store(liveFormat)
+				// The optimizer's dry run is not a seen date: with a partly constant argument (eg. "2021{0}")
+				// it would otherwise fix the format of a string that never occurs in the input
+				if context.GetKey(StaticProbeKey) != StaticProbeKey {
+					atomicFormat.Store(liveFormat)
+				}
 			}
 
 			val, err := time.ParseInLocation(liveFormat, strTime, tz)
